@@ -135,6 +135,8 @@ def truthy(v):
             v.a['truth'] = truth_term(v.t)
         return v.a['truth']
     if k == 'cset':
+        if v.a.get('guards'):
+            return z3.Or(*v.a['guards'])
         return z3.BoolVal(len(v.a['items']) > 0)
     raise Unsupported('truthy ' + k)
 
@@ -526,7 +528,8 @@ class Engine:
         for op, a, b in zip(e.ops, vals, vals[1:]):
             if isinstance(op, (ast.In, ast.NotIn)):
                 if b.kind == 'cset':
-                    alts = [eq(a, x) for x in b.a['items']]
+                    gs = b.a.get('guards') or [None] * len(b.a['items'])
+                    alts = [eq(a, x) if g is None else z3.And(g, eq(a, x)) for x, g in zip(b.a['items'], gs)]
                     r = z3.Or(*alts) if alts else z3.BoolVal(False)
                 elif b.kind == 'tuple':
                     alts = [eq(a, x) for x in b.a['items']]
@@ -692,6 +695,11 @@ class Engine:
             ia, xa = (a.a['isnone'], a.a['inner']) if a.kind == 'opt' else (z3.BoolVal(False), a)
             ib, xb = (b.a['isnone'], b.a['inner']) if b.kind == 'opt' else (z3.BoolVal(False), b)
             return V('opt', None, isnone=z3.If(c, ia, ib), inner=self.ite(c, xa, xb))
+        if a.kind == 'cset' and b.kind == 'cset':
+            # a conditional choice between two constant sets: one set whose members carry guards
+            ga = a.a.get('guards') or [z3.BoolVal(True)] * len(a.a['items'])
+            gb = b.a.get('guards') or [z3.BoolVal(True)] * len(b.a['items'])
+            return V('cset', None, items=list(a.a['items']) + list(b.a['items']), guards=[z3.And(c, g) for g in ga] + [z3.And(z3.Not(c), g) for g in gb])
         return ObjV(z3.If(c, to_obj(a), to_obj(b)))
 
     def binop(self, op, a, b):
